@@ -7,15 +7,109 @@ def run(ctx):
     ctx.clause = ("a temporary ABIXML file is flushed before it is re-read by path (abilint --diff, abidw --abidiff), "
                   "and nothing the writer emits is unknown to the reader (a writer-only name cannot survive "
                   "read+write)")
-    ctx.rules = ["R-FLUSH", "R-VOCAB", "R-ENUMTAB", "R-ALIASFIFO"]
+    ctx.rules = ["R-FLUSH", "R-VOCAB", "R-ENUMTAB", "R-ALIASFIFO", "R-SETKEY"]
     P = ctx.program(["tools/abidw.cc", "tools/abilint.cc"] + vr.UNITS)
     wr.check_flush(ctx, P)
     vr.check_vocab(ctx, P)
     vr.check_enumtab(ctx, P)
     check_aliasfifo(ctx)
+    check_setkey(ctx)
     ctx.assume("byte equality of the rest of the document (ordering, ids) is runtime behaviour; the iteration-order "
                "clause is decided under C14")
 
+
+
+def check_setkey(ctx, rule="R-SETKEY"):
+    """R-SETKEY: the order in which the writer emits what it finds in an ordered container (the translation units of a
+    corpus: std::set<translation_unit_sptr, shared_translation_unit_comp>) is the order of the keys *at insertion
+    time*.  The ABIXML reader inserts a unit and completes it afterwards; the DWARF reader completes it first.  Both give
+    the same document only because the key is computed once and kept: for every comparator functor of this repository
+    that orders a std::set / std::map by a getter whose result is a cached field (`if (cache.empty()) cache = ...;
+    return cache;`), nothing but that getter (and constructors) writes the cache.  A setter that resets it changes the
+    key of an element that is already in the tree: later insertions land in the wrong place, and read+write re-orders
+    the units."""
+    from engine.facts import walk, call_args, member_call_object, expr_str
+    from engine.cfg import strip_casts
+    from engine.compdb import AnalysisBroken
+    P = ctx.program(["src/abg-ir.cc", "src/abg-corpus.cc", "src/abg-reader.cc", "src/abg-writer.cc", "src/abg-dwarf-reader.cc"])
+    comps = {}
+    for f in P.all_funcs():
+        if f.n != "operator()" or f.dep or not f.cls or not f.cls.startswith("abigail::") or len(f.r["params"]) != 2:
+            continue
+        short_cls = f.cls.split("::")[-1]
+        used = any(("std::set<" in (t.get("c") or "") or "std::map<" in (t.get("c") or "") or "std::multiset<" in (t.get("c") or ""))
+                   and short_cls in (t.get("c") or "") for u in (P.units.values() if isinstance(P.units, dict) else P.units) for t in u.types)
+        if used:
+            comps.setdefault(f.cls, f)
+    if "abigail::ir::shared_translation_unit_comp" not in comps:
+        raise AnalysisBroken("anchor vanished: shared_translation_unit_comp is no longer the ordering of a std::set")
+    n = 0
+    for cls, f in sorted(comps.items()):
+        getters = {}
+        for x in f.nodes():
+            if x["k"] == "CXXMemberCallExpr" and not call_args(x):
+                g = P.funcs.get((f.decl(x) or {}).get("u"))
+                if g is not None and not g.dep and any(y["k"] == "DeclRefExpr" and y.get("d") in f.r["params"] for y in walk(x)):
+                    getters[g.u] = g
+        for g in sorted(getters.values(), key=lambda z: z.q):
+            rets = [r for r in g.nodes() if r["k"] == "ReturnStmt" and r.get("c") and r["c"][0] is not None]
+            fields = set()
+            for r in rets:
+                e = strip_casts(r["c"][0])
+                while e is not None and e["k"] in ("CXXConstructExpr", "ExprWithCleanups", "MaterializeTemporaryExpr") and len(e.get("c", [])) == 1:
+                    e = strip_casts(e["c"][0])
+                if e is not None and e["k"] == "MemberExpr" and (g.decl(e) or {}).get("k") == "Field":
+                    fields.add(g.decl(e)["q"])
+                else:
+                    fields.add(None)
+            # a cache: the getter itself stores into the field it returns
+            if None in fields or len(fields) != 1:
+                ctx.note("%s: %s orders by %s(), which returns a computed value: not decided" % (rule, cls.split("::")[-1], g.q))
+                continue
+            fq = next(iter(fields))
+            self_writes = [x for x in _writes_of(P, g, fq)]
+            if not self_writes:
+                ctx.note("%s: %s orders by %s(), a plain field getter (%s): not a cached key, not decided" % (rule, cls.split("::")[-1], g.q, fq))
+                continue
+            n += 1
+            ctx.analysed(f)
+            ctx.analysed(g)
+            bad = []
+            for h in P.all_funcs():
+                if h.dep or h.u == g.u:
+                    continue
+                if h.cls and h.n == h.cls.split("::")[-1]:
+                    continue                                   # constructors
+                for w in _writes_of(P, h, fq):
+                    bad.append((h, w))
+            ctx.ob(rule, "%s: the cached key %s is written by %s() only" % (cls.split("::")[-1], fq.split("::")[-1], g.n),
+                   not bad, bad[0][0].loc(bad[0][1]) if bad else g.loc(),
+                   "std::set / std::map ordered by %s(); the cache is filled there and nowhere reset" % g.q if not bad else
+                   "%s writes %s: the key of an element that already sits in a container ordered by %s changes under the "
+                   "container's feet (the ABIXML reader adds a unit before it completes it), later insertions are misplaced "
+                   "and the document is re-ordered by read+write" % (bad[0][0].q, fq.split("::")[-1], cls.split("::")[-1]))
+    ctx.floor(rule, "cached ordering keys of std::set / std::map comparators", n, 1)
+
+
+def _writes_of(P, h, fq):
+    """nodes of function h that write field fq: assignments, compound assignments, non-const member calls on it"""
+    from engine.facts import walk, call_args, member_call_object
+    from engine.cfg import strip_casts
+    out = []
+    for x in h.nodes():
+        k = x["k"]
+        tgt = None
+        if k in ("BinaryOperator", "CompoundAssignOperator") and (x.get("op") or "").endswith("=") and x.get("op") not in ("==", "!=", "<=", ">="):
+            tgt = x["c"][0]
+        elif k == "CXXOperatorCallExpr" and (x.get("op") or "").endswith("=") and x.get("op") not in ("==", "!=", "<=", ">="):
+            a = call_args(x)
+            tgt = a[0] if a else None
+        elif k == "CXXMemberCallExpr" and not (h.decl(x) or {}).get("const"):
+            tgt = member_call_object(x)
+        t = strip_casts(tgt) if tgt is not None else None
+        if t is not None and t["k"] == "MemberExpr" and (h.decl(t) or {}).get("q") == fq:
+            out.append(x)
+    return out
 
 
 def check_aliasfifo(ctx):
